@@ -249,6 +249,12 @@ RoundCoord(c, m) == LET rf == RoundTo(c.f, m) IN
 CoordStep == IF "FourDecimals" \in Deviations THEN 1000 ELSE 10        \* {x:>12.6f}
 WLabel(a) == IF a.lab = "" THEN a.el
              ELSE IF "LabelTruncated" \in Deviations /\ a.lab = "Fe_long_label" THEN "Fe_" ELSE a.lab
+(* a charge AS WRITTEN: value rounded to 1e-3 e and nz = 1 for a negative-zero token ("-0.000").  The sign of a zero *)
+(* token matters for the equality of two texts (TextFixedPoint), not for ChargesPreserved.  Required: a charge that  *)
+(* rounds to zero is written as 0.000 on EVERY write.  Deviation NegativeZeroChargeToken (as found): -0.0003 is      *)
+(* written "-0.000", read back as -0.0 and then written "0.000" (`c or 0.0`): the second text differs.               *)
+WCharge(q) == [v  |-> RoundTo(q, 100),
+               nz |-> IF "NegativeZeroChargeToken" \in Deviations /\ q < 0 /\ RoundTo(q, 100) = 0 THEN 1 ELSE 0]
 (* `old` is the text block this same object produced at its previous write (empty if none): a writer that caches *)
 (* tokens per atom / bond object re-emits them after an edit (deviations StaleBondTokenCache, StaleAtomTokenCache)   *)
 NoTextBlock == [name |-> "", atoms |-> <<>>, bonds |-> <<>>]
@@ -269,7 +275,7 @@ WBlock(b, old, al) ==
                  xyz |-> [d \in 1..3 |-> RoundCoord(b.xyz[i][d], CoordStep)],
                  tok |-> IF "StaleAtomTokenCache" \in Deviations /\ i <= Len(old.atoms) THEN old.atoms[i].tok
                          ELSE EmitAtom(b.atoms[i]),
-                 q   |-> IF Len(b.q) = 0 \/ "ChargeColumnDropped" \in Deviations THEN 0 ELSE RoundTo(b.q[i], 100)]],
+                 q   |-> WCharge(IF Len(b.q) = 0 \/ "ChargeColumnDropped" \in Deviations THEN 0 ELSE b.q[i])]],
    bonds |-> [i \in 1..Len(b.bonds) |->
                 [a |-> IdxOf(al, b.bonds[i].a), b |-> IdxOf(al, b.bonds[i].b),
                  tok |-> IF "StaleBondTokenCache" \in Deviations /\ i <= Len(old.bonds) THEN old.bonds[i].tok
@@ -290,7 +296,7 @@ RBlock(kind, t) ==
   [name  |-> t.name,
    atoms |-> [i \in 1..n |-> LET r == AcceptAtom(t.atoms[i].tok) IN [el |-> r.el, at |-> r.at, g |-> r.g, lab |-> t.atoms[i].lab]],
    xyz   |-> [i \in 1..n |-> t.atoms[i].xyz],
-   q     |-> IF kind = "Struct" THEN <<>> ELSE [i \in 1..n |-> t.atoms[i].q],
+   q     |-> IF kind = "Struct" THEN <<>> ELSE [i \in 1..n |-> t.atoms[i].q.v],   \* float("-0.000") = -0.0 = 0
    bonds |-> [i \in 1..Len(t.bonds) |-> [a |-> MinI(Shift(t.bonds[i].a, n), Shift(t.bonds[i].b, n)),
                                          b |-> MaxI(Shift(t.bonds[i].a, n), Shift(t.bonds[i].b, n)),
                                          bt |-> AcceptBond(t.bonds[i].tok)]]]
